@@ -120,6 +120,14 @@ func Not(a bool) bool             { return !a }
 func Implies(a, b bool) bool      { return !a || b }
 func Iff(a, b bool) bool          { return a == b }
 func Symbolic() bool              { return false }
+
+// Tier is 0 for quick, 1 for thorough (VERIF_TIER).
+func Tier() int {
+	if os.Getenv("VERIF_TIER") == "thorough" {
+		return 1
+	}
+	return 0
+}
 func IsSym(v interface{}) bool    { return false }
 func Stop()                       { panic(stop{}) }
 func Note(s string)               {}
